@@ -834,6 +834,8 @@ def same_under_renaming(op, *trees, level: int = 0):
         # dtypes: the comparison is between two trees that differ in their column names only)
         ref = op(*[renamed(t, -1) for t in trees])
     except Exception:
+        RENAMED_STATS["default_named_run_raised_nothing_compared"] = \
+            RENAMED_STATS.get("default_named_run_raised_nothing_compared", 0) + 1
         return None
     twins = [renamed(t, level) for t in trees]
     RENAMED_STATS["operations_compared_under_custom_column_names"] += 1
@@ -848,3 +850,26 @@ def same_under_renaming(op, *trees, level: int = 0):
         return f"result carries column names {tuple(got.names)}, the input had {tuple(twins[0].names)}"
     r = _same(ref, got)
     return None if r is None else f"with custom column names {tuple(custom_names(level))}: {r}"
+
+
+# ------------------------------------------------------------------ user subclasses (round 12)
+def voxel_twin(tree, scale: float = 0.25):
+    """A user subclass of Tree that stores its geometry in voxel units and reports physical units
+    through ``get_ndata`` (the accessor every node, ``xyz()``, ``r()`` ... goes through): the same
+    neuron as ``tree`` for every read-only use.  (``scale`` a power of two: bit-exact.)"""
+    from swcgeom.core import Tree
+
+    class VoxelTree(Tree):
+        def get_ndata(self, key):
+            v = super().get_ndata(key)
+            nm = self.names
+            if key in (nm.x, nm.y, nm.z, nm.r):
+                return v * np.float32(scale)
+            return v
+
+    nm = tree.names
+    kw = {k: np.array(tree.get_ndata(k)) for k in tree.keys()}
+    for k in (nm.x, nm.y, nm.z, nm.r):
+        kw[k] = (kw[k] / np.float32(scale)).astype(np.float32)
+    return VoxelTree(tree.number_of_nodes(), names=nm, source=tree.source,
+                     comments=list(tree.comments), **kw)
